@@ -355,6 +355,18 @@ def call_attr(I, n, f, args, kwargs):
         return unit_api(I, n, name, args, kwargs)
     if isinstance(f.value, ast.Name) and f.value.id in I.model.classes and not I.env.has(f.value.id):
         return class_call(I, n, f.value.id, name, args, kwargs)
+    if isinstance(f.value, ast.Name) and f.value.id == 'dict' and name == 'fromkeys' and args and not I.env.has('dict'):
+        # dict.fromkeys(keys, value): literal keys become real keys, all bound to the one value
+        keys = I.iterate(args[0], n)
+        d = DictV()
+        val = args[1] if len(args) > 1 else NONE
+        for k in keys:
+            key = k.t.text() if isinstance(k, S) and k.t.is_literal() else k.v if isinstance(k, Lit) else None
+            if key is None:
+                d.pairs.append((k, val))
+            else:
+                d[key] = val
+        return d
     src = _dotted(f)
     if src is not None and src.startswith(('numpy.', 'np.', 'pandas.', 'math.')):
         hook = I.opts.get('numpy_hook')
